@@ -252,7 +252,7 @@ func extractTarGz(tarGzFile, dest string) error {
 			if err := os.MkdirAll(filepath.Dir(target), 0755); err != nil {
 				return err
 			}
-			f, err := os.OpenFile(target, os.O_CREATE|os.O_RDWR, os.FileMode(header.Mode))
+			f, err := os.OpenFile(target, os.O_CREATE|os.O_RDWR|os.O_TRUNC, os.FileMode(header.Mode))
 			if err != nil {
 				return err
 			}
@@ -280,9 +280,16 @@ func extractZip(zipFile, dest string) error {
 	defer r.Close()
 	decompress := func(file *zip.File) error {
 		path := filepath.Join(dest, file.Name)
+		if !strings.HasPrefix(path, filepath.Clean(dest)+string(os.PathSeparator)) {
+			return fmt.Errorf("%s: illegal file path", path)
+		}
 
 		if file.FileInfo().IsDir() {
 			return os.MkdirAll(path, 0700)
+		}
+		// Archives need not carry entries for parent directories.
+		if err := os.MkdirAll(filepath.Dir(path), 0700); err != nil {
+			return err
 		}
 
 		fs, err := file.Open()
